@@ -58,6 +58,8 @@ class error_997_visitor(error_visitor.error_visitor):
         """
         A value copied from the received document must not add or split elements or segments of this document
         """
+        if value is None:
+            return ''
         for term in (self.seg_term, self.ele_term, self.subele_term):
             value = value.replace(term, ' ')
         return value
